@@ -4,8 +4,9 @@ CHECK = {
     "engine": "E1",
     "technique": "stateless model checking of the implementation (deviation-bounded schedule exploration of the real hydro loop) plus explicit-state search of a task-level TAKE/STOP model generated from the real task tables, every model transition replayed on the real Task objects",
     "level_text": "Every thread schedule with at most 1 deviation (2 on selected layouts) of the real hydro loop of "
-                  "TaskBasedRadiationHydrodynamicsSimulation::do_simulation is executed for 10 layouts/periodicity "
-                  "combinations (including periodic axes with one subgrid), 2-3 threads, 1-2 consecutive steps. A monitor "
+                  "TaskBasedRadiationHydrodynamicsSimulation::do_simulation is executed for 12 layouts/periodicity "
+                  "combinations (including periodic axes with one subgrid), 2-3 threads, 1-2 consecutive steps; the thorough tier "
+                  "adds a state-pruned search to deviation bound 3 on the single-subgrid layout (reported as state-pruned). A monitor "
                   "built from the task tables the real code constructed checks on every execution: each task starts "
                   "exactly once per step, only after all tasks that list it as child have finished, no two running tasks "
                   "touch the same subgrid (the touched set comes from the task's subgrid/neighbour fields, not from its "
@@ -20,7 +21,7 @@ CHECK = {
                   "running task so that overlap is observable); sequential consistency; 2-3 threads; layouts up to 2x2x1 "
                   "and 3x1x1 with 2x2x2 cells per subgrid.",
     "quick_deadline": 100,
-    "thorough_deadline": 1200,
+    "thorough_deadline": 2400,
     "parts": [{"name": "hydro-loop", "bin": "c07_hydroloop", "share": 2.0},
               {"name": "task-model", "bin": "c07_taskmodel", "share": 1.0}],
     "assumptions": [],
